@@ -59,6 +59,12 @@ func ChanPost(t *Task) {
 		return
 	}
 	if t.partner == nil {
+		// scheduling point right after the operation completed: the task can
+		// be pre-empted between, say, taking a ticket from a channel and
+		// acting on it
+		if active && sched.cur == t {
+			sched.yield(-16)
+		}
 		return
 	}
 	if t.secondary {
@@ -71,6 +77,9 @@ func ChanPost(t *Task) {
 	}
 	t.wake.wait() // wait for the secondary to finish its half
 	t.partner = nil
+	if active && sched.cur == t {
+		sched.yield(-16)
+	}
 }
 
 // Select decides which case of a rewritten select statement runs.  It returns
